@@ -18,6 +18,9 @@ pub enum IoFault {
     WouldBlock,
     /// write() returns Ok(0) for a non-empty buffer
     Zero,
+    /// read() returns Ok(0) although more data follows (a tty after ^D, a file that is still growing):
+    /// the source signals end of input early, once
+    EarlyEof,
 }
 
 impl IoFault {
@@ -26,7 +29,7 @@ impl IoFault {
             IoFault::Interrupted => io::Error::new(ErrorKind::Interrupted, format!("sim: EINTR on {}", side)),
             IoFault::Hard => io::Error::new(ErrorKind::Other, format!("sim: hard I/O error on {}", side)),
             IoFault::WouldBlock => io::Error::new(ErrorKind::WouldBlock, format!("sim: EAGAIN on {}", side)),
-            IoFault::Zero => unreachable!(),
+            IoFault::Zero | IoFault::EarlyEof => unreachable!(),
         }
     }
     pub fn transient(self) -> bool {
@@ -165,7 +168,12 @@ impl<'a> Read for ScriptedSource<'a> {
                 IoFault::Hard => "read_hard",
                 IoFault::WouldBlock => "read_wouldblock",
                 IoFault::Zero => "read_zero",
+                IoFault::EarlyEof => "read_early_eof",
             });
+            if kind == IoFault::EarlyEof {
+                t.read_sizes.push(0);
+                return Ok(0);
+            }
             return Err(kind.to_err("read"));
         }
         let remaining = self.data.len() - self.pos;
@@ -267,6 +275,7 @@ impl Write for ScriptedSink {
                 IoFault::Hard => "write_hard",
                 IoFault::WouldBlock => "write_wouldblock",
                 IoFault::Zero => "write_zero",
+                IoFault::EarlyEof => "write_zero",
             });
             if kind == IoFault::Zero {
                 if buf.is_empty() {
